@@ -8,6 +8,7 @@ package camelcase
 //@   props C19 C03
 //@   pure
 //@   noglobals
+//@   noglobalstate
 //@   ensures !utf8.ValidString(src) ==> len(entries) == 1 && entries[0] == src
 //@   ensures forall e int :: 0 <= e && e < len(entries) ==> len(entries[e]) > 0
 //@   loop 1 invariant forall g int :: 0 <= g && g < len(runes) ==> len(runes[g]) > 0
@@ -21,6 +22,7 @@ package camelcase
 //@   requires transWord != nil
 //@   lit 1 nopanic
 //@   lit 1 noglobals
+//@   lit 1 noglobalstate
 //@   note lit 1 is the converter itself (LowerSnakeCase ... UpperCamelCase are makeCase(...) values): total (no panic on any input) and without stores to package-level state; transWord is one of wrap(strings.ToLower|ToUpper) or the two closures in naming.go
 
 //@ func wrap
@@ -28,6 +30,18 @@ package camelcase
 //@   requires transWord != nil
 //@   lit 1 nopanic
 //@   lit 1 noglobals
+//@   lit 1 noglobalstate
+
+//@ func var:LowerCamelCase
+//@   props C19
+//@   lit 1 nopanic
+//@   lit 1 noglobalstate
+//@   note the transWord closure of LowerCamelCase: total, and free of package-level state (it builds its Caser per call)
+
+//@ func var:UpperCamelCase
+//@   props C19
+//@   lit 1 nopanic
+//@   lit 1 noglobalstate
 
 //@ func LowerCamelCase
 //@   pure
